@@ -94,6 +94,83 @@ def eval_plain(tree, seq):
     return [(m.start, m.end) for m in matches], out
 
 
+def alt_subgrammar(p_max, q_max, atoms="ab"):
+    """alternations alt(P, Q) / alt(Q, P) with |P| <= p_max and |Q| <= q_max: larger patterns (up to p_max+q_max+1 nodes) in which one
+    branch can complete inside a run of the other - the shape that makes nested / adjacent candidates"""
+    ps = [t for sz in range(1, p_max + 1) for t in R.trees(sz, atoms)]
+    qs = [t for sz in range(1, q_max + 1) for t in R.trees(sz, atoms)]
+    out = []
+    for p in ps:
+        if R.nullable(R.compile_tree(p)):
+            continue
+        for q in qs:
+            if R.nullable(R.compile_tree(q)) or p == q:
+                continue
+            out.append(("alt", p, q))
+            out.append(("alt", q, p))
+    return out
+
+
+def _block_alt(block, agg):
+    _, p_max, q_max, lo, hi, alpha, slen = block
+    seqs = R.sequences(alpha, slen)
+    for tree in alt_subgrammar(p_max, q_max)[lo:hi]:
+        tj = R.to_json(tree)
+        for seq in seqs:
+            spans, viol = eval_plain(tree, seq)
+            case = {"part": "a", "pattern": tj, "seq": seq}
+            agg.case(case, bool(spans), None if spans is None else len(spans), sample=False)
+            agg.transitions += len(seq)
+            for kind, sig, detail in viol:
+                agg.violation(kind, dict(sig, part="a"), dict(case, context=["alt", list(block)]), f"{R.show(tree)} on {seq!r}: {detail}")
+
+
+def run_pair(a_json, b_json, alpha, slen):
+    """use pattern A through find_all / starts_with, then check pattern B completely (same process)"""
+    from codelimit.common.gsm import matcher
+
+    a = R.from_json(a_json)
+    for seq in ("ab", "ba", "aab"):
+        try:
+            matcher.find_all(top_expr(a), list(seq))
+            matcher.starts_with(top_expr(a), list(seq))
+        except Exception:
+            pass
+    b = R.from_json(b_json)
+    out = []
+    for seq in R.sequences(alpha, slen):
+        spans, viol = eval_plain(b, seq)
+        for kind, sig, detail in viol:
+            out.append([kind, sig, seq, detail])
+    return out
+
+
+def pair_trees(max_size):
+    return [t for sz in range(1, max_size + 1) for t in R.trees(sz, "ab") if not R.nullable(R.compile_tree(t))]
+
+
+def _block_pairs(block, agg):
+    from mc.checks.c06 import isolated
+
+    _, max_size, lo, hi, alpha, slen = block
+    trees = pair_trees(max_size)
+    for a in trees[lo:hi]:
+        aj = R.to_json(a)
+        for b in trees:
+            if a == b:
+                continue
+            bj = R.to_json(b)
+            res = isolated(run_pair, aj, bj, alpha, slen)
+            agg.case({"part": "pair", "history": [aj], "pattern": bj}, True, "ok" if not res else res[0][0], sample=False)
+            agg.transitions += 1
+            for kind, sig, seq, detail in res:
+                if kind == "position-not-covered" and sig.get("relation") == "greedy-match-encloses-a-reported-match":
+                    continue  # K1 is reported by the main enumeration
+                agg.violation("result-depends-on-previously-used-pattern", {"underlying": kind},
+                              {"part": "pair", "history": [aj], "pattern": bj, "seq": seq, "alphabet": alpha, "slen": slen},
+                              f"after searching with {R.show(a)}: {R.show(b)} on {seq!r}: {detail}")
+
+
 def _block_plain(block, agg):
     atoms, size, lo, hi, alpha, slen = block
     seqs = R.sequences(alpha, slen)
@@ -109,7 +186,7 @@ def _block_plain(block, agg):
             agg.case(case, bool(spans), None if spans is None else len(spans), sample=bool(spans) and len(spans) >= 2)
             agg.transitions += len(seq)
             for kind, sig, detail in viol:
-                agg.violation(kind, dict(sig, part="a"), case, f"{R.show(tree)} on {seq!r}: {detail}")
+                agg.violation(kind, dict(sig, part="a"), dict(case, context=["plain", list(block)]), f"{R.show(tree)} on {seq!r}: {detail}")
 
 
 # ---------------------------------------------------------------------------------------
@@ -363,10 +440,34 @@ def _block_shapes(block, agg):
         agg.case(case, bool(spans), None if spans is None else len(spans), sample=bool(spans) and len(spans) >= 2)
         agg.transitions += len(codes)
         for kind, sig, detail in viol:
-            agg.violation(kind, dict(sig, part=case["part"]), case, f"{name} on {' '.join(codes)}: {detail}")
+            agg.violation(kind, dict(sig, part=case["part"]), dict(case, context=["shape", list(block)]), f"{name} on {' '.join(codes)}: {detail}")
 
 
 def replay(case):
+    if case["part"] == "pair":
+        from mc.checks.c06 import isolated
+
+        res = isolated(run_pair, case["history"][0], case["pattern"], case.get("alphabet", "ab"), case.get("slen", 3))
+        return [{"kind": "result-depends-on-previously-used-pattern", "sig": {"underlying": k}, "detail": d} for k, sig, seq, d in res
+                if not (k == "position-not-covered" and sig.get("relation") == "greedy-match-encloses-a-reported-match")][:3]
+    from mc.checks.c06 import isolated
+
+    out = isolated(_replay_single, case)
+    if out or "context" not in case:
+        return out
+    # not reproducible alone: re-run the whole block it came from in a fresh child (state left by earlier patterns of the block)
+    return isolated(_rerun_block, case["context"])
+
+
+def _rerun_block(context):
+    agg = core.Agg()
+    kind, b = context
+    _dispatch((kind, tuple(tuple(x) if isinstance(x, list) else x for x in b)), agg)
+    return [{"kind": r["kind"], "sig": r["sig"], "detail": "[only after the earlier patterns of its block were used in the same process] " + r["detail"]}
+            for lst in agg.violations.values() for _, r in lst]
+
+
+def _replay_single(case):
     if case["part"] == "a":
         _, viol = eval_plain(R.from_json(case["pattern"]), case["seq"])
     elif case["part"] == "b-hand":
@@ -415,12 +516,30 @@ def run(ctx: core.Ctx):
             for n in range(1, n_lang + 1):
                 for first in alpha:
                     blocks.append(("shape", ("lang", lang, idx, alpha, n, first)))
-    ctx.run_blocks(_dispatch, blocks)
+    p_max, q_max, aslen = ctx.pick((5, 2, 4), (5, 3, 5))
+    nalt = len(alt_subgrammar(p_max, q_max))
+    ctx.bounds["alt_subgrammar"] = {"max_size_P": p_max, "max_size_Q": q_max, "patterns": nalt, "max_len": aslen, "alphabet": "ab"}
+    step = max(1, nalt // (ctx.workers * 4) + 1)
+    for lo in range(0, nalt, step):
+        blocks.append(("alt", ("alt", p_max, q_max, lo, min(nalt, lo + step), "ab", aslen)))
+    psize = ctx.pick(4, 4)
+    npair = len(pair_trees(psize))
+    ctx.bounds["pattern_pairs"] = {"max_size": psize, "trees": npair, "ordered_pairs": npair * (npair - 1)}
+    step = max(1, npair // (ctx.workers * 4) + 1)
+    for lo in range(0, npair, step):
+        blocks.append(("pairs", ("pairs", psize, lo, min(npair, lo + step), "ab", 3)))
+    from codelimit.common.gsm import matcher, Expression, Pattern  # noqa (imported, not used, before forking)
+    import mc.checks.c06  # noqa
+    ctx.run_blocks(_dispatch, blocks, fresh=True)
 
 
 def _dispatch(block, agg):
     kind, b = block
     if kind == "plain":
         _block_plain(b, agg)
+    elif kind == "alt":
+        _block_alt(b, agg)
+    elif kind == "pairs":
+        _block_pairs(b, agg)
     else:
         _block_shapes(b, agg)
